@@ -22,7 +22,7 @@ from .c10 import Tape  # per-(mode, k) outcome tape
 
 ID = "C03"
 LEVEL = "exploration"
-BUDGET = {"quick": 120, "thorough": 1200}
+BUDGET = {"quick": 240, "thorough": 1200}
 JOB_TIMEOUT = 240
 MINIMISE_S = {"quick": 60, "thorough": 240}
 RULE = ("a case = a program over the mergeable single-mode families (Dgate, Xgate, Zgate, Sgate, Pgate, Rgate, Fourier, Kgate, Vgate and daggered forms; "
@@ -48,8 +48,8 @@ def warm(tier):
 
 def batches(tier):
     if tier == "quick":
-        return [{"name": "gaussian", "runs": 2000, "weight": 4}, {"name": "bosonic", "runs": 700, "weight": 2, "seed_offset": 100000},
-                {"name": "fock", "runs": 160, "weight": 4, "seed_offset": 200000}]
+        return [{"name": "gaussian", "runs": 6000, "weight": 4}, {"name": "bosonic", "runs": 2100, "weight": 2, "seed_offset": 100000},
+                {"name": "fock", "runs": 480, "weight": 4, "seed_offset": 200000}]
     return [{"name": "gaussian", "runs": 50000, "weight": 4}, {"name": "bosonic", "runs": 15000, "weight": 2, "seed_offset": 100000},
             {"name": "fock", "runs": 3000, "weight": 5, "seed_offset": 200000}]
 
